@@ -183,8 +183,11 @@ pub fn run_history(case: &str, pid: &str, seed_rng: &mut Rng, start: &[ANode], o
                     match &outcome {
                         Outcome::Ok(_) => {
                             let got = oforest(&st);
-                            if want.canon(&old) != got.canon(&old) {
-                                out.fail(case, "effect-mismatch", &format!("step {}: `{}` left the store as {:?} but the ordered-tree model predicts {:?}", k, op_str(&op), got.canon(&old), want.canon(&old)));
+                            // remove / detach / element_unwrap only ever merge the later text node into the earlier one:
+                            // there the surviving handle is part of the prediction
+                            let text_ids = matches!(op, Op::Remove(_) | Op::Detach(_) | Op::Unwrap(_));
+                            if want.canon_with(&old, text_ids) != got.canon_with(&old, text_ids) {
+                                out.fail(case, "effect-mismatch", &format!("step {}: `{}` left the store as {:?} but the ordered-tree model predicts {:?}", k, op_str(&op), got.canon_with(&old, text_ids), want.canon_with(&old, text_ids)));
                             }
                         }
                         other => out.fail(case, "precondition-met-but-refused", &format!("step {}: `{}` satisfies the documented preconditions but returned {}", k, op_str(&op), outcome_str(other))),
